@@ -100,13 +100,13 @@ def geometry_programs(ctx, work):
         cells = GEN.sample_cells(ctx.rng, 32)
         ctx.cov["line_geometry"] = "%d sampled cells of the %d-cell grid" % (len(cells), len(GEN.geometry_grid()))
     out = []
-    for i in range(0, len(cells), 8):
-        chunk = cells[i:i + 8]
+    for i in range(0, len(cells), 4):
+        chunk = cells[i:i + 4]
         txt = GEN.geometry_program(ctx.rng, chunk, uid0=i)
         p = os.path.join(dst, "geo%04d.er" % i)
         open(p, "w").write(txt)
         out.append({"id": "geo/geo%04d" % i, "path": p, "kind": "gen-geometry", "cwd": dst, "text": txt,
-                    "versions": ["3.7", "3.8", "3.9"], "cells": chunk})
+                    "versions": ["3.7", "3.8", "3.9"], "cells": chunk, "timeout": 900})
         for g, n, shape in chunk:
             ctx.count("geometry:" + shape)
     return out
@@ -120,7 +120,9 @@ def build_jobs(progs, probes, work, versions=None):
         for v in (versions if explicit else (p.get("versions") or versions)):
             h = hashlib.sha1(p["id"].encode()).hexdigest()[:10]
             jobs.append(dict(src=p["path"], ver=v, magic=probes[v]["magic"], cwd=p["cwd"], prog=p,
-                             outdir=os.path.join(work, "out", v, h)))
+                             outdir=os.path.join(work, "out", v, h), timeout=p.get("timeout", 180)))
+    # long programs first, so that they do not end up alone at the tail of the pool
+    jobs.sort(key=lambda j: -os.path.getsize(j["src"]))
     return jobs
 
 
@@ -381,6 +383,13 @@ def run_in(ctx, probes, proof, erg, model, work):
     nfail = len(batch.failed)
     ctx.cov["compile_failed"] = nfail
     ctx.cov["compiler_crashes_seen"] = sorted(set(j["prog"]["id"] for j in batch.failed if j.get("crash")))[:10]
+    # a generated line-geometry program that does not compile (or times out) is a hole in the coverage: say so loudly
+    geo_failed = sorted(set(j["prog"]["id"] for j in batch.failed if j["prog"]["kind"] == "gen-geometry"))
+    ctx.cov["line_geometry_programs_not_compiled"] = len(geo_failed)
+    if geo_failed:
+        first = [j for j in batch.failed if j["prog"]["id"] == geo_failed[0]][0]
+        ctx.notes.append("line-geometry programs not compiled: %s (first: %s)" % (geo_failed[:8], first.get("error", "")[-200:]))
+        ctx.log("WARNING %d line-geometry programs did not compile: %s" % (len(geo_failed), first.get("error", "")[-200:]))
     compiled = set((r["prog"]["id"]) for r in results)
     if not compiled:
         raise TieBroken("no program compiles with the erg binary of this tree (first error: %s)" % (batch.failed[0].get("error") if batch.failed else "none"))
